@@ -8,3 +8,8 @@ from vlib import core
 commit = subprocess.run(["git", "-C", core.REPO, "rev-parse", "HEAD"], capture_output=True, text=True).stdout.strip()
 json.dump({"recorded_at_repo_commit": commit, "files": core.source_fingerprint()}, open(core.FINGERPRINT, "w"), indent=1, sort_keys=True)
 print("recorded", core.FINGERPRINT, commit)
+import shutil
+src = os.path.join(core.VERIF, "gen", "extract_cache.json")
+if os.path.exists(src):
+    shutil.copy(src, os.path.join(core.VERIF, "validated_extract.json"))
+    print("recorded validated_extract.json")
